@@ -11,8 +11,9 @@ NASTY = [b"\r\n", b"0\r\n\r\n", b"HTTP/1.1 200 OK\r\n\r\n", b"\n", b"\r", b"5\r\
 
 
 def expected_body(app):
-    status, headers, clen, pieces, retval = app
-    full = b"".join(pieces) + (retval or b"")
+    status, headers, clen, pieces, retval = app[:5]
+    written = app[5][1] if len(app) > 5 else []
+    full = b"".join(written) + b"".join(pieces) + (retval or b"")
     return full
 
 
@@ -70,6 +71,10 @@ class C18(core.Check):
             ([(1, 3, None), (1, 0, None)], [E, G], ([5], 3), None),
             # found by the generator (fixed, dee4961): persisted flag of the request in progress closed the connection early
             ([(1, 1, None), (0, 0, 100), (0, 0, None)], [E, E, E], ([81, 113, 134, 152, 176], 1), None),
+            # error restart before anything is written: the first call declares a Content-Length, the replacement does not (and vice versa); write() callable
+            ([(1, 0, None), (1, 0, None)], [(b"500 Internal Server Error", [(b"X-E", b"1")], None, [b"replacement body, longer than five"], None, ([(b"200 OK", [], 5)], [])), A], ([], 1), None),
+            ([(1, 0, None), (1, 2, None)], [(b"200 OK", [], 3, [b"abcdef"], None, ([(b"404 Not Found", [(b"X-Old", b"o")], None), (200, [], 1000)], [b"w1", b"w2"])), B], ([], 1), None),
+            ([(0, 1, None), (0, 1, None)], [(b"200 OK", [], 4, [b"cd"], None, ([], [b"ab"])), A], ([], 1), 3),
             ([(0, 3, None), (1, 0, None)], [B, (b"200 OK", [], 6, [b"ab", b"", b"cdef", b"gh"], None)], ([], 1), 3),
         ]
 
@@ -115,6 +120,17 @@ class C18(core.Check):
             clen = rng.randrange(0, total + 1)
         else:
             clen = 0
+        if rng.random() < 0.3:
+            # start_response called more than once before anything is written (error restart, with exc_info): status, headers and
+            # Content-Length of the earlier calls differ from the final ones; and/or body pieces handed to the write() callable
+            restarts = []
+            for _ in range(rng.choice([0, 1, 1, 2])):
+                restarts.append((rng.choice([b"200 OK", b"500 Internal Server Error", 404]), [(rng.choice(HNAMES), rng.choice(HVALS))] if rng.random() < 0.5 else [],
+                                 rng.choice([None, 0, 1, 3, 5, 1000])))
+            written = [bytes(97 + rng.randrange(26) for _ in range(rng.choice([1, 2, 7, 40]))) for _ in range(rng.choice([0, 0, 1, 2]))]
+            if clen is not None and written:
+                clen = rng.choice([clen + len(b"".join(written)), clen])
+            return (status, hs, clen, pieces, retval, (restarts, written))
         return (status, hs, clen, pieces, retval)
 
     def generate(self, rng, n, tier):
@@ -157,7 +173,7 @@ class C18(core.Check):
 
     @staticmethod
     def _conn_req(reqs, apps):
-        return ([(v, CONN[c]) for v, c, _ in reqs], [(st, [(n, v) for n, v in hs], cl, list(ps), rv or b"") for st, hs, cl, ps, rv in apps])
+        return ([(v, CONN[c]) for v, c, _ in reqs], [(a[0], [(n, v) for n, v in a[1]], a[2], (list(a[5][1]) if len(a) > 5 else []) + list(a[3]), a[4] or b"") for a in apps])
 
     @staticmethod
     def _complete(reqs, eof_at, j):
@@ -212,7 +228,7 @@ class C18(core.Check):
             bad.append("responses-one-per-request-until-close")
         parsed, used = hf.parse_responses(raw, n_exp)
         for i in range(n_exp):
-            status, headers, clen, pieces, retval = apps[i]
+            status, headers, clen, pieces, retval = apps[i][:5]
             if i >= len(parsed) or "error" in parsed[i]:
                 bad.append("response-missing-or-unparseable")
                 return bad
@@ -292,9 +308,17 @@ class C18(core.Check):
         for i in range(len(reqs)):
             if len(reqs) > 1:
                 yield (reqs[:i] + reqs[i + 1:], apps[:i] + apps[i + 1:], ([], gap), quota)
-        for i, (st, hs, cl, ps, rv) in enumerate(apps):
-            def put(a):
-                return (reqs, apps[:i] + [a] + apps[i + 1:], (cuts, gap), quota)
+        for i, app in enumerate(apps):
+            st, hs, cl, ps, rv = app[:5]
+            def put(a, extra=app[5:]):
+                return (reqs, apps[:i] + [tuple(a) + tuple(extra)] + apps[i + 1:], (cuts, gap), quota)
+            if len(app) > 5:
+                yield put((st, hs, cl, ps, rv), ())
+                rs, wr = app[5]
+                for j in range(len(rs)):
+                    yield put((st, hs, cl, ps, rv), ((rs[:j] + rs[j + 1:], wr),))
+                for j in range(len(wr)):
+                    yield put((st, hs, cl, ps, rv), ((rs, wr[:j] + wr[j + 1:]),))
             if hs:
                 yield put((st, hs[:-1], cl, ps, rv))
             if rv:
@@ -368,6 +392,12 @@ class C18(core.Check):
                 f.append(f"bs={case[2][2]}")
             if any(isinstance(a[0], int) for a in case[1]):
                 f.append("status:int")
+            for a in case[1]:
+                if len(a) > 5:
+                    if a[5][0]:
+                        f.append("app:start_response-restart" + (":drops-content-length" if a[2] is None and any(r[2] is not None for r in a[5][0]) else ""))
+                    if a[5][1]:
+                        f.append("app:write-callable")
             if any(not isinstance(a[0], int) and any(c > 127 for c in a[0]) for a in case[1]):
                 f.append("status:latin-1-reason")
             return f
